@@ -360,7 +360,7 @@ def unset_default(ctx: Ctx, rule: str) -> None:
 def run(ctx: Ctx) -> None:
     from .c10 import verdict
 
-    ctx.call(verdict, "7")
+    ctx.call(verdict, "7", tools_only=True)
     ctx.call(unset_default, "6")
     ctx.call(chain_loop, "1")
     ctx.call(per_vm_template, "2")
